@@ -34,8 +34,9 @@ CONSTANTS N,               \* modules 1..N
           Graphs,          \* set of dependency graphs explored (MC module)
           Faults,          \* subset of {"start", "run", "exit", "stop"}: what the one faulty service may do
           LateStart,       \* TRUE: wrappers may also be started one by one at any later time
-          AwaitStoppingInner  \* TRUE: W.stop also awaits an S[m] that is already Stopping (the property
-                              \* needs it); FALSE: module_service.go as written at the pinned commit
+          AwaitStoppingInner  \* TRUE: W.stop also awaits an S[m] that is already Stopping - the property needs
+                              \* it (with FALSE, module_service.go before dskit fix fe293af, TLC finds
+                              \* StopOrderState / StopAfterDependants violated: finding F8)
 
 Mod == 1..N
 
